@@ -190,7 +190,7 @@ func TestVerif_C14_readers(t *testing.T) {
 			}
 		}
 	}
-	n := verifh.N(900, 40000)
+	n := verifh.N(2000, 150000)
 	for i := 0; i < n; i++ {
 		alg := verifh.Pick(r, verifc14.Algs)
 		pc := r.Intn(4)
